@@ -168,6 +168,8 @@ KEX_ALGS = {            # name -> (family, exchange hash)
     b'diffie-hellman-group14-sha256': ('dh14', 'sha256'),          # RFC 8268
     b'diffie-hellman-group16-sha512': ('dh16', 'sha512'),          # RFC 8268
     b'diffie-hellman-group14-sha1': ('dh14', 'sha1'),              # RFC 4253 8.2
+    b'diffie-hellman-group-exchange-sha256': ('gex', 'sha256'),    # RFC 4419
+    b'diffie-hellman-group-exchange-sha1': ('gex', 'sha1'),        # RFC 4419
 }
 DH_PRIMES = {'dh14': _P14, 'dh16': _P16}
 HOSTKEY_ALGS = [b'ssh-ed25519', b'ecdsa-sha2-nistp256', b'rsa-sha2-256', b'rsa-sha2-512']
@@ -664,6 +666,9 @@ class MiniSSH:
         if peer['follows'] and (peer['kex'][:1] != [neg['kex']] or peer['hostkey'][:1] != [neg['hostkey']]):
             self._ignore_next_kex = True
         family = KEX_ALGS[neg['kex']][0]
+        if family == 'gex':
+            self._begin_gex()
+            return
         self._eph = _Ephemeral(family, self.rng)
         if self.is_client:
             self._frame(bytes([MSG_KEX_INIT]) + self._eph.encoded)          # KEXDH_INIT / KEX_ECDH_INIT
@@ -671,7 +676,74 @@ class MiniSSH:
         else:
             self._stage = 'wait_init'
 
+    # -- group exchange (RFC 4419): REQUEST_OLD 30, GROUP 31, INIT 32, REPLY 33, REQUEST 34 -----------------
+    gex_request = (1024, 2048, 8192)        # client: (min, n, max); a 1-tuple (n,) sends the old request form
+    gex_group = None                         # server: (p, g) to offer; default group 14 with generator 2
+
+    def _begin_gex(self):
+        if self.is_client:
+            req = self.gex_request
+            self._gex_req = b''.join(u32(v) for v in req)
+            self._frame(bytes([34 if len(req) == 3 else 30]) + self._gex_req)
+            self._stage = 'gex_wait_group'
+        else:
+            self._stage = 'gex_wait_request'
+
+    def _gex_hash(self, k_s, req, p, g, e, f, k):
+        v_c, v_s = (self.version, self.peer_version) if self.is_client else (self.peer_version, self.version)
+        i_c, i_s = ((self.our_kexinit_payload, self.peer_kexinit_payload) if self.is_client
+                    else (self.peer_kexinit_payload, self.our_kexinit_payload))
+        data = (sstr(v_c) + sstr(v_s) + sstr(i_c) + sstr(i_s) + sstr(k_s) + req + mpint(p) + mpint(g) +
+                mpint(e) + mpint(f) + mpint(k))
+        return hashlib.new(KEX_ALGS[self.negotiated['kex']][1], data).digest()
+
+    def _on_gex_message(self, t, payload):
+        r = Reader(payload, 1)
+        if self._stage == 'gex_wait_group' and t == 31:
+            p, g = r.get_mpint(), r.get_mpint()
+            if p.bit_length() < 1024 or not 1 < g < p - 1:
+                raise MiniSSHError('kex_value', 'unusable group')
+            x = 2 + int.from_bytes(self.rng(64), 'big')
+            self._gex = (p, g, x, pow(g, x, p))
+            self._frame(bytes([32]) + mpint(self._gex[3]))
+            self._stage = 'gex_wait_reply'
+        elif self._stage == 'gex_wait_reply' and t == 33:
+            p, g, x, e = self._gex
+            k_s, f, sig = r.get_string(), r.get_mpint(), r.get_string()
+            if not 1 < f < p - 1:
+                raise MiniSSHError('kex_value', 'DH public value out of range')
+            k = pow(f, x, p)
+            h = self._gex_hash(k_s, self._gex_req, p, g, e, f, k)
+            if not host_verify(k_s, self.negotiated['hostkey'], sig, h):
+                raise MiniSSHError('host_signature', 'signature on the exchange hash does not verify')
+            if not self._accept_host_key(k_s):
+                raise MiniSSHError('host_key_rejected')
+            self._finish(k_s, k, h)
+        elif self._stage == 'gex_wait_request' and t in (30, 34):
+            self._gex_req = bytes(payload[1:1 + (12 if t == 34 else 4)])
+            p, g = self.gex_group or (DH_PRIMES['dh14'], 2)
+            self._gex = (p, g)
+            self._frame(bytes([31]) + mpint(p) + mpint(g))
+            self._stage = 'gex_wait_init'
+        elif self._stage == 'gex_wait_init' and t == 32:
+            p, g = self._gex
+            e = r.get_mpint()
+            if not 1 < e < p - 1:
+                raise MiniSSHError('kex_value', 'DH public value out of range')
+            y = 2 + int.from_bytes(self.rng(64), 'big')
+            f, k = pow(g, y, p), pow(e, y, p)
+            k_s = host_key_blob(self._host_private)
+            h = self._gex_hash(k_s, self._gex_req, p, g, e, f, k)
+            sig = host_sign(self._host_private, self.negotiated['hostkey'], h)
+            self._frame(bytes([33]) + sstr(k_s) + mpint(f) + sstr(sig))
+            self._finish(k_s, k, h)
+        else:
+            raise MiniSSHError('unexpected_kex_message', '%d in stage %s' % (t, self._stage))
+
     def _on_kex_message(self, t, payload):
+        if self._stage is not None and str(self._stage).startswith('gex_'):
+            self._on_gex_message(t, payload)
+            return
         if self._ignore_next_kex:
             self._ignore_next_kex = False
         elif t == MSG_KEX_INIT and self._stage == 'wait_init':
